@@ -108,7 +108,7 @@ def mc_cfg(plan, invs, bug="none", K=1, S=0, emit=False):
 
 HEADER_VALUES = {"pauth": ("Proxy-Authorization", "Basic cHJveHk6c2VjcmV0"), "ptag": ("X-Proxy-Tag", "via-proxy"),
                  "rauth": ("Authorization", "Bearer origin-token"), "rtag": ("X-Req", "1")}
-CLIENT_TIMEOUT = 8.0
+CLIENT_TIMEOUT = 10.0
 
 
 def exc_chain(ex):
@@ -217,6 +217,52 @@ def validate(traces):
     return [(ver[i + 1][1], ver[i + 1][2], soft[i + 1][1]) for i in range(len(traces))]
 
 
+def corrupted_traces(scenarios, runs):
+    """Monitor self-test: one clean recorded tunnel trace and one refused trace, each corrupted in a
+    single field, must be rejected by TLC with exactly the clause that field belongs to."""
+    import copy
+    base = refused = None
+    for sc, (ev, errs, _) in zip(scenarios, runs):
+        c = sc["cfg"]
+        if c["ds"] == "https" and not c["fwd"] and c["hk"] == "name" and c["port"] == "default" and not errs:
+            if base is None and sc["nreq"] == 1 and sc["replies"] == ["200"] and c["ocert"] == "ok" and \
+                    c["pcert"] == "ok" and c["ph"] and any(e["party"] == "origin" for e in ev):
+                base = (sc, ev)
+            if refused is None and sc["nreq"] == 1 and sc["replies"] == ["407"] and c["pcert"] == "ok" and \
+                    c["retries"] == 0:
+                refused = (sc, ev)
+    if base is None or refused is None:
+        raise tlc.MachineryError("no base traces for the monitor self-test among the emitted scenarios")
+    out = []
+
+    def mutate(src, pick, change, clause):
+        sc, ev = src
+        ev = copy.deepcopy(ev)
+        e = next(x for x in ev if pick(x))
+        change(e)
+        out.append(({"cfg": sc["cfg"], "events": ev}, clause))
+
+    is_origin = lambda e: e["ev"] == "msg" and e["party"] == "origin"           # noqa: E731
+    is_connect = lambda e: e["ev"] == "msg" and e["form"] == "CONNECT"          # noqa: E731
+    mutate(base, is_origin, lambda e: e.update(hdr=sorted(e["hdr"] + ["pauth"])), "ProxyHeadersOnlyToProxy")
+    mutate(base, is_connect, lambda e: e.update(target="origin.test:444"), "ConnectTargetExact")
+    mutate(base, is_origin, lambda e: e.update(inner="untrusted"), "OriginNameVerifiedInsideTunnel")
+    mutate(base, is_origin, lambda e: e.update(sni="proxy.test"), "OriginNameVerifiedInsideTunnel")
+    mutate(base, is_origin, lambda e: e.update(form="absolute", target="https://origin.test/r1"), "FormByRoute")
+    mutate(base, is_origin, lambda e: e.update(party="proxy"), "HttpsOnlyViaTunnelUnlessOptedIn")
+    mutate(base, lambda e: e["ev"] == "dial", lambda e: e.update(target="origin.test:443"),
+           "HttpsOnlyViaTunnelUnlessOptedIn")
+    mutate(base, lambda e: e["ev"] == "reply", lambda e: e.update(code="407"), "NoRequestAfterRefusal")
+    mutate(base, lambda e: e["ev"] == "tls" and e["layer"] == "inner", lambda e: e.update(done=False),
+           "NoRequestAfterRefusal")
+    mutate(base, lambda e: e["ev"] == "end", lambda e: e.update(kind="error", status=0, by="", exc=["ProtocolError"]),
+           "Retunnelled")
+    mutate(refused, lambda e: e["ev"] == "end", lambda e: e.update(exc=["ProtocolError", "OSError"]), "RefusalRaises")
+    mutate(refused, lambda e: e["ev"] == "end", lambda e: e.update(kind="response", status=200, by="origin", exc=[]),
+           "RefusalRaises")
+    return out
+
+
 def sc_key(sc):
     return json.dumps([sc["cfg"], sc["nreq"], sc["replies"], sorted(sc["closes"])], sort_keys=True)
 
@@ -229,6 +275,10 @@ def nontrivial(sc):
 
 def clean(o):
     return o["clause"] == "ok" and not o["diff"] and not o["errors"] and o["soft"] == "ok"
+
+
+def timed_out(o):
+    return bool(o["errors"]) or any("Timeout" in x or x == "timeout" for e in o["events"] for x in e["exc"])
 
 
 def assess(scenarios, runs, verdicts):
@@ -296,6 +346,11 @@ def _absorb(rep, results, findings):
                 rep.sample({"scenario": {k: sc[k] for k in ("cfg", "nreq", "replies", "closes")},
                             "recorded": [{k: v for k, v in e.items() if v != pn.BLANK[k]} for e in o["events"]],
                             "verdict": o["clause"]})
+        for a, b in zip(sc.get("log") or [], o["events"]):
+            if a["host"] == "*" and b["host"]:
+                seen = rep.extra.setdefault("host_header_where_model_leaves_it_open", [])
+                if b["host"] not in seen and len(seen) < 10:
+                    seen.append(b["host"])
         if o["clause"] != "ok":
             case = {"kind": "scenario", "scenario": sc, "recorded": o["events"], "raw": o["raw"]}
             facts = dict(sc["cfg"], clause=o["clause"], nreq=sc["nreq"])
@@ -377,13 +432,22 @@ def run(rep):
             if len(runs) != len(scenarios):
                 raise tlc.MachineryError(f"replayed {len(runs)} of {len(scenarios)} scenarios")
             traces = [{"cfg": sc["cfg"], "events": r[0]} for sc, r in zip(scenarios, runs)]
-            verdicts = [v for part in pool.map(_validate_chunk, chunks(traces, 4 if quick else 12)) for v in part]
+            probes = corrupted_traces(scenarios, runs)
+            verdicts = [v for part in pool.map(_validate_chunk, chunks(traces + [t for t, _ in probes],
+                                                                       4 if quick else 12)) for v in part]
+            for (_, want), (pos, clause, _) in zip(probes, verdicts[len(traces):]):
+                if clause != want:
+                    raise tlc.MachineryError(f"monitor self-test: a trace corrupted to break {want} was judged {clause}")
+            rep.extra["monitor_selftest_rejected"] = len(probes)
+            verdicts = verdicts[:len(traces)]
             results = assess(scenarios, runs, verdicts)
             # a non-clean scenario is re-run once: only a reproducible result counts
             dirty = [i for i, o in enumerate(results) if not clean(o)]
             if dirty:
                 again = judge([results[i]["sc"] for i in dirty[:200]])
                 for i, o2 in zip(dirty, again):
+                    if not clean(o2) and timed_out(o2):
+                        o2 = judge([o2["sc"]])[0]      # a starved party thread looks like a timeout: once more
                     if clean(o2):
                         rep.extra["flaky_reruns"] = rep.extra.get("flaky_reruns", 0) + 1
                     results[i] = o2
